@@ -25,17 +25,23 @@ def types_design():
         rt("T5", [i("a", True), u("o", "U5"), u("p", "U5")], [V("default", ["a", ("o", "tiny"), ("p", "default")]), V("tiny", ["a"])]),
         rt("U6", [i("x", True), s("y")], [V("default", ["x", "y"]), V("tiny", ["x"])]),
         rt("T6", [i("a", True), dict(u("c", "U6"), view="tiny")], [V("default", ["a", ("c", "default")]), V("tiny", ["a"]), V("ext", ["a", "c"])]),
+        rt("T7", [i("a", True), dict(s("d"), required=True)], [V("default", ["a", "d"]), V("tiny", ["a"])]),
+        {"name": "T7Coll", "kind": "collection", "base": {"kind": "user", "ref": "T7"}},
+        rt("U8", [i("x", True), s("y")], [V("default", ["x", "y"]), V("tiny", ["x"])]),
+        rt("T8", [i("a", True), u("o", "U8"), u("p", "U8"), u("q", "U8"), u("r", "U8")],
+           [V("default", ["a", ("o", "tiny"), ("p", "tiny"), ("q", "tiny"), ("r", "tiny")]), V("tiny", ["a"])]),
     ]
 
 
-RES = {"G1": "T1", "G2": "T2", "G3": "T2Coll", "G4": "T4", "G5": "T5", "G6": "T6"}
+COLL = ("G3", "G7")
+RES = {"G1": "T1", "G2": "T2", "G3": "T2Coll", "G4": "T4", "G5": "T5", "G6": "T6", "G7": "T7Coll", "G8": "T8"}
 VIEWS = {"G1": ["default", "tiny"], "G2": ["default", "tiny", "ext"], "G3": ["default", "tiny", "ext"], "G4": ["default", "tiny"],
-         "G5": ["default", "tiny"], "G6": ["default", "tiny", "ext"]}
+         "G5": ["default", "tiny"], "G6": ["default", "tiny", "ext"], "G7": ["default", "tiny"], "G8": ["default", "tiny"]}
 
 
 def design(g):
     """one design per graph, so that a graph whose generated code does not compile (C01's business) is set aside alone"""
-    need = {"G1": ["T1"], "G2": ["U2", "T2"], "G3": ["U2", "T2", "T2Coll"], "G4": ["T4"], "G5": ["U5", "T5"], "G6": ["U6", "T6"]}[g]
+    need = {"G1": ["T1"], "G2": ["U2", "T2"], "G3": ["U2", "T2", "T2Coll"], "G4": ["T4"], "G5": ["U5", "T5"], "G6": ["U6", "T6"], "G7": ["T7", "T7Coll"], "G8": ["U8", "T8"]}[g]
     d = {"api": {"name": "views" + g.lower()}, "types": [t for t in types_design() if t["name"] in need], "services": []}
     if True:
         svc = {"name": g.lower(), "methods": []}
@@ -63,22 +69,24 @@ def value_from_paths(paths):
         leaf = parts[-1]
         if leaf in ("a", "x") and True:
             cur.setdefault(leaf, 1 + len(parts))
-        elif leaf in ("b", "y"):
+        elif leaf in ("b", "y", "d"):
             cur.setdefault(leaf, leaf * 2)
         else:
             cur.setdefault(leaf, {})
     return root
 
 
-def paths_of(obj, prefix=""):
+def paths_of(obj, prefix="", zero_is_unset=False):
+    """attribute paths that are set; on the Go side a required (non-pointer) field cannot be nil: its zero value
+    is what "unset" looks like there (every value the check sends is non-zero)"""
     out = set()
     if isinstance(obj, dict):
         for k, v in obj.items():
-            if v is None:
+            if v is None or (zero_is_unset and v in ("", 0, False)):
                 continue
             p = prefix + k if not prefix else prefix + "." + k
             out.add(p)
-            out |= paths_of(v, p)
+            out |= paths_of(v, p, zero_is_unset)
     return out
 
 
@@ -98,19 +106,19 @@ def scenario(v, sid):
     c = v["cfg"]
     g = c["g"]
     val = value_from_paths(v["val"])
-    value = [val, val] if g == "G3" else val
+    value = [val, val] if g in COLL else val
     meth = "Any" if c["fixed"] == "-" else "Fix" + c["fixed"]
     s = {"id": sid, "service": g.lower(), "method": meth, "outcome": {"kind": "result", "value": value, "view": "" if c["chosen"] == "bogus" else c["chosen"]}}
     if c["chosen"] == "bogus":
         body = project_paths(val, set(v["pred"]["wireKeys"]))
         s["rawResp"] = {"status": 200, "headers": {"Content-Type": ["application/json"], "Goa-View": ["bogus"]},
-                        "body": json.dumps([body, body] if g == "G3" else body)}
+                        "body": json.dumps([body, body] if g in COLL else body)}
     return s
 
 
 def observe(v, events):
     o = {"wire": None, "view": "none", "client": None, "cerr": "none", "status": 0}
-    coll = v["cfg"]["g"] == "G3"
+    coll = v["cfg"]["g"] in COLL
     wr = hg.find(events, "wire_resp")
     if wr:
         w = wr[0]
@@ -135,10 +143,10 @@ def observe(v, events):
         else:
             r = c.get("res")
             if coll and isinstance(r, list):
-                ps = [paths_of(e) for e in r]
+                ps = [paths_of(e, zero_is_unset=True) for e in r]
                 o["client"] = sorted(ps[0]) if ps and all(p == ps[0] for p in ps) else "elements-differ"
             elif isinstance(r, dict):
-                o["client"] = sorted(paths_of(r))
+                o["client"] = sorted(paths_of(r, zero_is_unset=True))
     for bad in ("server_panic", "client_panic"):
         if hg.find(events, bad):
             o["panic"] = bad
@@ -150,7 +158,7 @@ def run(ctx):
                        "Views.tla; non-trivial = the view is a strict subset of the attributes or nesting is involved; distinct = canonical JSON")
     ctx.mc_expect_violation("mc/MC_Views", consts={"Deviations": '{"views.leak_all_attributes"}'}, label="MC dev")
     vectors = ctx.gen("mc/MC_Views", "gen/Gen_Views.cfg", label="Gen Views").vectors
-    graphs = ["G1", "G2", "G3", "G4", "G5", "G6"]
+    graphs = ["G1", "G2", "G3", "G4", "G5", "G6", "G7", "G8"]
     designs = [design(g) for g in graphs]
     pl = hg.Pipeline(ctx, "gen-views")
     pl.prepare(designs)
